@@ -39,7 +39,7 @@ def plan(tier):
             ("weighted-3", True, 3, 6, 6, 4, (0.25,)),
             ("weighted-3-int", True, 3, None, 4, 3, (1,)),
             ("weighted-4", True, 4, 4, 5, 3, (0.25,)),
-            ("unweighted-4", False, 4, 7, 7, 5, (1,)),
+            ("unweighted-4", False, 4, 6, 6, 5, (1,)),
         ]
     return [
         ("weighted-3", True, 3, 7, 7, 5, (0.25,)),
@@ -63,32 +63,37 @@ def report(chk, probs, extra):
                            ref_state=p["ref_state"]))
 
 
-def run_mode(chk, name, weighted, n, ops_mc, ops_hist, depth, units):
+def tlc_jobs(tier):
+    """All TLC runs of the tier, started together (each in its own scratch directory);
+    the emission runs are single-worker and print-bound, the exhaustive ones share the cores."""
+    from concurrent.futures import ThreadPoolExecutor
+    jobs = {}
+    ex = ThreadPoolExecutor(max_workers=6)
+    for name, weighted, n, ops_mc, ops_hist, depth, units in plan(tier):
+        if ops_mc:
+            jobs[(name, "mc")] = ex.submit(S.impl_check, S.consts(n, ops_mc, weighted), weighted, 3000, 8)
+        jobs[(name, "ref")] = ex.submit(S.ref_graph, S.consts(n, max(depth, ops_hist) + 1, weighted))
+        jobs[(name, "hist")] = ex.submit(S.impl_histories, S.consts(n, ops_hist, weighted), weighted)
+    for inv in ("CountExact", "MaxTight"):
+        jobs[("drift", inv)] = ex.submit(S.impl_drift, S.consts(3, 4, True), inv)
+    ex.shutdown(wait=False)
+    return jobs
+
+
+def run_mode(chk, jobs, name, weighted, n, ops_mc, ops_hist, depth, units):
     tier = chk.tier
     acts = ["Insert", "Remove"] + (["Update", "Resum"] if weighted else [])
-    # ---- TLC: the transcription, all histories in the bound -----------------------
-    if ops_mc:
-        c = S.consts(n, ops_mc, weighted)
-        res = S.impl_check(c, weighted)
-        chk.add_tlc("ListDictImpl %s N=%d MaxOps=%d: %s + refinement of WeightedBag" % (name, n, ops_mc, ", ".join(S.INV_IMPL)), res)
-        if res.violation:
-            algorithm_finding(chk, name, weighted, n, res)
-        else:
-            need(res, acts + ["Pick"] + (["Update"] if not weighted else []), "ListDictImpl " + name)
-            bc = S.branch_coverage(res)
-            chk.part("TLC ListDictImpl " + name, **{"branch_" + k.replace("-", "_"): v for k, v in bc.items()})
-            wanted = ["move-last"] + (["recount", "new-max", "tie-max", "zero-inc-at-max"] if weighted else [])
-            for b in wanted:
-                if bc.get(b, 0) == 0:
-                    raise common.MachineryFailure("vacuous TLC run (ListDictImpl %s): branch %s never evaluated" % (name, b))
     # ---- TLC: the reference, emitted as a graph -----------------------------------
     gops = max(depth, ops_hist) + 1
-    g, gres = S.ref_graph(S.consts(n, gops, weighted))
+    g, gres = jobs[(name, "ref")].result()
     chk.add_tlc("WeightedBag %s N=%d MaxOps=%d: %s, %s + emission" % (name, n, gops, ", ".join(S.INV_REF), ", ".join(S.PROP_REF)), gres)
     if gres.violation:
         chk.violation("spec|WeightedBag|" + gres.violation[:60], "TLC: " + gres.violation, {"mode": name})
         return
     need(gres, acts + ["Select"], "WeightedBag " + name)
+    # ---- TLC: representative histories of every distinct implementation state ------
+    H, hres = jobs[(name, "hist")].result()
+    chk.add_tlc("ListDictImpl %s N=%d MaxOps=%d: one shortest history per distinct state (VIEW without op counter)" % (name, n, ops_hist), hres)
     S.G = {name: g}
     # ---- TLC: representative histories of every distinct implementation state ------
     H, hres = S.impl_histories(S.consts(n, ops_hist, weighted), weighted)
@@ -146,6 +151,20 @@ def run_mode(chk, name, weighted, n, ops_mc, ops_hist, depth, units):
         if deep and not diff and same:
             chk.note("%s unit=%s: items order, _total_weight, max_weight and max_weight_count of the real object equal the ListDictImpl "
                      "state on all %d state-covering histories (transcription faithful there)" % (name, unit, same))
+    # ---- TLC: the transcription, all histories in the bound -----------------------
+    if ops_mc:
+        res = jobs[(name, "mc")].result()
+        chk.add_tlc("ListDictImpl %s N=%d MaxOps=%d: %s + refinement of WeightedBag" % (name, n, ops_mc, ", ".join(S.INV_IMPL)), res)
+        if res.violation:
+            algorithm_finding(chk, name, weighted, n, res)
+        else:
+            need(res, acts + ["Pick"] + (["Update"] if not weighted else []), "ListDictImpl " + name)
+            bc = S.branch_coverage(res)
+            chk.part("TLC ListDictImpl " + name, **{"branch_" + k.replace("-", "_"): v for k, v in bc.items()})
+            wanted = ["move-last"] + (["recount", "new-max", "tie-max", "zero-inc-at-max"] if weighted else [])
+            for b in wanted:
+                if bc.get(b, 0) == 0:
+                    raise common.MachineryFailure("vacuous TLC run (ListDictImpl %s): branch %s never evaluated" % (name, b))
 
 
 def algorithm_finding(chk, name, weighted, n, res):
@@ -170,12 +189,11 @@ def algorithm_finding(chk, name, weighted, n, res):
     report(chk, found, {"mode": name, "consts": {"N": n, "weighted": weighted}, "tlc": res.violation})
 
 
-def drift_notes(chk):
+def drift_notes(chk, jobs):
     """what the brute-force probe saw, now as TLC counterexamples (information only)"""
-    c = S.consts(3, 4, True)
     for inv, text in (("CountExact", "max_weight_count is not the multiplicity of max_weight"),
                       ("MaxTight", "max_weight is larger than every current weight")):
-        last, res = S.impl_drift(c, inv)
+        last, res = jobs[("drift", inv)].result()
         if last is None:
             chk.note("ListDictImpl: %s holds within 4 operations" % inv)
         else:
@@ -216,9 +234,14 @@ def main(argv=None):
     if rp:
         return replay_one(rp)
     chk = Check("C16", "model_checking")
-    for mode in plan(chk.tier):
-        run_mode(chk, *mode)
-    drift_notes(chk)
+    jobs = tlc_jobs(chk.tier)
+    try:
+        for mode in plan(chk.tier):
+            run_mode(chk, jobs, *mode)
+        drift_notes(chk, jobs)
+    finally:
+        for f in jobs.values():
+            f.cancel()
     chk.assumptions += [
         "TLC and the TLA+ semantics of WeightedBag.tla / ListDictImpl.tla",
         "harness.scripted models random.choice / random.random as used by choose_random (an unmodelled draw ends the check with exit 2)",
